@@ -22,6 +22,8 @@ def txn_methods(F):
             out.append(i)
     return out
 
+WITNESSES = ["CommitConsumesTransaction"]
+
 
 def run(ctx):
     F = ctx.facts
